@@ -22,8 +22,8 @@ vars == <<l, C, D, viol, drift>>
 
 Init == l = 1 /\ C = [tip |-> 0] /\ D = [id |-> ""] /\ viol = {} /\ drift = {}
 
-Mask(ch) == [ch EXCEPT !.blocks = [h \in 1..ch.tip |->
-               [ch.blocks[h] EXCEPT !.size = 0, !.vals = [i \in 1..Len(ch.blocks[h].vals) |-> [ch.blocks[h].vals[i] EXCEPT !.prio = 0]]]]]
+Mask(ch) == [ch EXCEPT !.blocks = Force([h \in 1..ch.tip |->
+               [ch.blocks[h] EXCEPT !.size = 0, !.vals = Force([i \in 1..Len(ch.blocks[h].vals) |-> [ch.blocks[h].vals[i] EXCEPT !.prio = 0]])]])]
 
 StepReset(e) ==
   /\ C' = e.chain
@@ -56,7 +56,7 @@ StepCall(e) ==
       scope == IF k \in StatementKinds THEN "statement" ELSE "extra"
       T     == {e.trusted[i].h : i \in {j \in 1..Len(e.trusted) : e.trusted[j].h <= C.tip /\ e.trusted[j].hash = C.blocks[e.trusted[j].h].bid.hash}}
       offchain == \E i \in 1..Len(e.trusted) : e.trusted[i].h > C.tip \/ e.trusted[i].hash # C.blocks[e.trusted[i].h].bid.hash
-      expSent  == IF k \in ProviderKinds /\ a.h \in Have(C, a) THEN Honest(C, k, a) ELSE Falsify(C, k, a, e.f)
+      expSent  == EffSent(C, k, a, e.f)
       rl    == Relay(C, k, a, e.sent)
       cons  == Consistent(C, T, k, a, e.got)
       strict == ConsistentStrict(C, T, k, a, e.got)
